@@ -3,6 +3,7 @@
 package main
 
 import (
+	"encoding/json"
 	"fmt"
 
 	"github.com/tinode/chat/server/simrt"
@@ -22,3 +23,5 @@ func simOrderKeys() {
 		panic(fmt.Sprintf("simrt: no stable order for map key of type %T", k))
 	}
 }
+
+func jsonUnmarshalBytes(b []byte, v any) error { return json.Unmarshal(b, v) }
